@@ -19,7 +19,11 @@ and `x` have the same term.
   ('yield', site)                   resume argument of a yield
 """
 
+import re
+
 from .mir import op_place, op_const
+
+PINPROJ = re.compile(r"::_(#\d+)?::")
 
 
 def simple_name(cpath):
@@ -263,7 +267,7 @@ class Terms:
                 return self.of_operand(args[0], depth)
             if c.key in UNWRAP and args:
                 return ("field", ("variant", self.of_operand(args[0], depth), UNWRAP[c.key]), 0)
-            if c.name in ("project", "project_ref") and c.local and "::_::" in (c.cpath or "") and args:
+            if c.name in ("project", "project_ref") and c.local and PINPROJ.search(c.cpath or "") and args:
                 # pin-project generated projection: `x.project().f` designates `x.f`
                 return self.of_operand(args[0], depth)
         return ("call", c.key, tuple(self.of_operand(a, depth) for a in args), b)
